@@ -13,6 +13,7 @@ import (
 	"fmt"
 	"io"
 	"net"
+	"os"
 	"runtime"
 	"slices"
 	"sort"
@@ -195,7 +196,7 @@ func runDial(t *testing.T, ksc KScenario, res *KResult) {
 		}
 		if res.KeepLog {
 			for _, p := range w.Tap.All {
-				if p.Conn != nil && (p.Type == TapInitial || p.Type == TapRetry || p.Type == TapHandshake) {
+				if p.Conn != nil && (p.Type == TapInitial || p.Type == TapRetry || p.Type == TapHandshake || os.Getenv("VERIF_DUMP_ALL") != "") {
 					rec := w.Log[p.Dir][p.Ord]
 					res.Logf("all: conn %d shadow=%v %d %s dgram=%d {%s-> %v} scid=%x dcid=%x client=%s", p.Conn.ID, p.Conn.Shadow, p.SentNS/1000, p.String(), rec.Size, rec.Fate, rec.Delivered, p.SCID, p.DCID, rec.Client)
 				}
